@@ -325,19 +325,22 @@ func runC05(c *fw.Ctx) {
 
 // c05Fuzz (driver side): coverage-guided extension. Go's native fuzzer mutates the repository's lisp sources and
 // reader edge cases through the same entry points; a panic or a 20 s stall fails the target and is a violation.
-func c05Fuzz(m *fw.Merged) {
-	execs := "60000x"
+func c05Fuzz(m *fw.Merged) { fuzzStep(m, "FuzzRead", "60000x", "4000000x") }
+
+// fuzzStep runs one native fuzz target of harness/fuzz with a count-based budget and turns a failure into a violation.
+func fuzzStep(m *fw.Merged, target, quick, thorough string) {
+	execs := quick
 	if m.Tier == "thorough" {
-		execs = "4000000x"
+		execs = thorough
 	}
 	vd := os.Getenv("VERIF_DIR")
 	if vd == "" {
 		vd = "/verif"
 	}
 	dir := filepath.Join(vd, "harness")
-	crashDir := filepath.Join(dir, "fuzz", "testdata", "fuzz", "FuzzRead")
+	crashDir := filepath.Join(dir, "fuzz", "testdata", "fuzz", target)
 	os.RemoveAll(crashDir)
-	args := []string{"test", "-tags", "verif", "-run", "^$", "-fuzz", "FuzzRead", "-fuzztime", execs}
+	args := []string{"test", "-tags", "verif", "-run", "^$", "-fuzz", "^" + target + "$", "-fuzztime", execs}
 	if alt := os.Getenv("VERIF_REPO_DIR"); alt != "" {
 		if mods, _ := filepath.Glob(filepath.Join(vd, ".work", "alt-*.mod")); len(mods) > 0 {
 			args = append(args, "-modfile="+mods[0])
@@ -356,7 +359,7 @@ func c05Fuzz(m *fw.Merged) {
 			lastExecs, interesting = ex, tot
 		}
 	}
-	m.Extra["coverage_guided_fuzz"] = map[string]any{"target": "FuzzRead", "budget": execs, "executions": lastExecs, "interesting_inputs_in_corpus": interesting}
+	m.Extra["coverage_guided_fuzz"] = map[string]any{"target": target, "budget": execs, "executions": lastExecs, "interesting_inputs_in_corpus": interesting}
 	m.Counts["fuzz_executions"] = lastExecs
 	if err != nil {
 		input := "(see detail)"
@@ -372,7 +375,7 @@ func c05Fuzz(m *fw.Merged) {
 		if len(text) > 6000 {
 			text = text[len(text)-6000:]
 		}
-		m.Violations = append(m.Violations, fw.Violation{Key: key, CaseID: "fuzz", What: "the coverage-guided fuzz target FuzzRead failed (panic or stall in a reader entry point)", Input: input, Detail: text})
+		m.Violations = append(m.Violations, fw.Violation{Key: key, CaseID: "fuzz", What: "the coverage-guided fuzz target " + target + " failed", Input: input, Detail: text})
 		m.Counts["violations_by_key."+key]++
 	}
 	os.RemoveAll(filepath.Join(dir, "fuzz", "testdata"))
